@@ -2,7 +2,7 @@
 # mutrun.sh ID [checks]  — run both variants
 cd "$(dirname "$0")/.."
 for v in ${VARIANTS:-A B}; do
-  d=/tmp/mut/out-$1; case $v in C|D) d=/tmp/mut/out2-$1;; E|F) d=/tmp/mut/out3-$1;; G|H) d=/tmp/mut/out4-$1;; I|J) d=/tmp/mut/out5-$1;; K|L) d=/tmp/mut/out6-$1;; M|N) d=/tmp/mut/out7-$1;; O|P) d=/tmp/mut/out8-$1;; esac
+  d=/tmp/mut/out-$1; case $v in C|D) d=/tmp/mut/out2-$1;; E|F) d=/tmp/mut/out3-$1;; G|H) d=/tmp/mut/out4-$1;; I|J) d=/tmp/mut/out5-$1;; K|L) d=/tmp/mut/out6-$1;; M|N) d=/tmp/mut/out7-$1;; O|P) d=/tmp/mut/out8-$1;; Q|R) d=/tmp/mut/out9-$1;; esac
   [ -f $d/$v.diff ] || continue
   python3 tools/mutate.py $1 $v $2 2>&1 | python3 -c "
 import sys,json
